@@ -225,7 +225,8 @@ def run_case(case, rec):
         fnps.append(fn)
     # every accepted spelling of the two condition types (the constructor validates them case-insensitively)
     sp_d = ["dirichlet", "Dirichlet", "DIRICHLET"][case["seed"] % 3]
-    sp_n = ["von neumann", "Von Neumann", "vonneumann", "VonNeumann", "VON NEUMANN"][case["seed"] % 5]
+    # (the constructor accepts any case-insensitive part of a listed name, so the common short form "neumann" too)
+    sp_n = ["von neumann", "Von Neumann", "vonneumann", "VonNeumann", "VON NEUMANN", "neumann", "Neumann"][case["seed"] % 7]
     cname = {"dirichlet": sp_d, "neumann": sp_n, None: None}
     rec.count("condition_spelling_%s" % ("lower" if (sp_d.islower() and sp_n == "von neumann") else "other"))
 
